@@ -199,7 +199,7 @@ def run(run):
                     "%s rejected by Trace_BlockCode clause %s" % (ev["ev"], clause))
     run.sample(next(e for e in events if e["ev"] == "Invert" and e["m"] != [0]))
     run.sample(next(e for e in events if e["ev"] == "Layout"))
-    if not mism and not run.only:
+    if not run.only and not [m for m in mism if m[1] <= 30]:        # the self-test slice (the first 30 events) was accepted
         def corrupt(ev2):
             i = next(i for i, e in enumerate(ev2) if e["ev"] == "Invert" and not e["raised"])
             ev2[i]["mhat"] = [ev2[i]["mhat"][0] ^ 1] + ev2[i]["mhat"][1:]
